@@ -56,6 +56,13 @@ def step_vderive(cmd, cfgs_quick, cfgs_thorough, compare_digests=False):
     return f
 
 
+def step_cli(pid, tier, seed):
+    H.build_tools()
+    cli = H.ensure_cli()
+    out = os.path.join(H.OUT, f"{pid}.c17.json")
+    return "c17", H.run_engine([H.tool("vgraph"), "c17", "--prop", pid, "--tier", tier, "--seed", str(seed), "--file", cli, "--out", out], out)
+
+
 def step_readprobe(pid, tier, seed):
     reps = []
     for cfg in ["u-dev", "u-rel", "f-dev", "f-rel"]:
@@ -202,6 +209,12 @@ prop("C15", level="exploration", engine="vderive",
      note="Panics are caught with catch_unwind; slices are only requested after the span has been validated numerically.", design_ref="5 C15",
      steps=[step_vderive("c15", ["tc-u-dev", "tc-u-rel", "tc-f-dev", "tc-f-rel"], ["tc-u-dev", "tc-u-rel", "tc-f-dev", "tc-f-rel", "sm-u-rel"])], assumptions=[])
 
+prop("C17", level="exploration", engine="vgraph + real logos-cli binary",
+     technique="exhaustive enumeration of an enum-source grammar through the real logos-cli binary against an independent syn-based stripping oracle + generate(); breadth-first exploration of all write/--check/edit histories up to depth 4 against a four-state file model",
+     text="For every enumerated enum source the CLI's output equals (as a token stream) the input enum with exactly the logos/token/regex attributes and the Logos derive removed, followed by the derive's implementation, and parses as a Rust file; for every history of write / --check / make-stale / CRLF / delete up to depth 4, --check succeeds iff the file holds that output modulo line endings and never modifies it.",
+     note="The oracle for stripping is written against syn independently of logos_codegen::strip_attributes; generate() itself is the same library function the CLI calls.", design_ref="5 C17",
+     steps=[step_cli], assumptions=["--format (rustfmt) is not exercised"])
+
 ORDER = [f"C{n:02d}" for n in range(1, 21)]
 
 NOT_YET = "check under construction in this round - not claimed yet"
@@ -295,6 +308,10 @@ def replay_once(path):
     out = os.path.join(H.OUT, "replay.json")
     if kind in ("layer1", "tokens", "c16", "c18", "c19"):
         rep = H.run_engine([H.tool("vgraph"), "replay", "--prop", rec["property"], "--file", path, "--out", out], out)
+    elif kind == "c17":
+        cli = H.ensure_cli()
+        rep0 = H.run_engine([H.tool("vgraph"), "c17", "--prop", rec["property"], "--file", cli, "--out", out], out)
+        rep = {"violations": [v for v in rep0["violations"] if v["key"] == rec.get("key")]}
     elif kind in ("layer2", "readprobe"):
         tier = "quick"
         rep = H.run_vrt("t-dev" if rec["property"] == "C20" else "u-dev", tier, 0, "replay", rec["property"], out, extra=["--file", path])
@@ -339,6 +356,7 @@ def setup():
         H.ensure_vrt(cfg, "quick", 0)
     for cfg in ["tc-u-dev", "sm-u-dev", "tc-u-rel", "tc-f-dev", "tc-f-rel"]:
         H.ensure_vderive(cfg)
+    H.ensure_cli()
     return 0
 
 
